@@ -473,6 +473,10 @@ class Sym(Interp):
         return (("$draw", ("const", self._draws)),)
 
     def h_call_ext(self, d, n, args, kwargs, env, ctx):
+        if d in ("numpy.atleast_1d", "numpy.atleast_2d", "numpy.atleast_3d") and len(args) > 1 and not kwargs and \
+                not any(isinstance(a, tuple) and a and a[0] == "*" for a in args):
+            # np.atleast_1d(a, b, c) is the sequence of the three single conversions
+            return TupleV([self.h_call_ext(d, n, [a], {}, env, ctx) for a in args], "tuple")
         if d in VALUE_IDENTITY_EXT and len(args) == 1 and not kwargs and not (isinstance(args[0], tuple) and args[0] and args[0][0] == "*"):
             # np.asarray(x): the same values (and, for arrays, the same object - aliasing is the ownership domain's business)
             self.fact("call", ctx, n, env, target=d, args=[T(args[0])], kwargs={}, callkind="ext", result=T(args[0]), rawargs=list(args))
